@@ -50,6 +50,10 @@ RULES = {
   ("KF-C06-3", "generic-candidate-aborts-resolution-on-multi-value-call", r'^generic-candidate-aborts-resolution-on-multi-value-call$',
    "a family whose generic candidate [T any](T) precedes the applicable one, called with a multi-value call as only argument: inference panics with 'unexpected *types.Tuple' and the whole call is rejected instead of the next candidate being tried", "typeparams.go inferFunc / typesinfer.go: tuple operand"),
  ],
+ "C12": [
+  ("KF-C12-1", "statement-comments-printed-at-column-zero", r'^comments/not-a-gofmt-fixed-point/comment-indentation$',
+   "a comment group attached to a statement with SetComments is printed at column 0 instead of at the indentation of its statement: the written text is not a fixed point of gofmt (the repository's own expected strings pin this layout)", "internal/go/printer/nodes.go:1321 statement-comment hook prints the position-less comment text as is"),
+ ],
  "C03": [
   ("KF-C03-1", "typed-constant-result-reported-untyped", r'^type (int|int8|uint8|MyInt) reported as untyped int \[constant-operands',
    "an operator applied to typed constants reports the untyped kind instead of the operand type (c_int + 1 has type int, reported untyped int)", "ast.go result type mapping for instrFlagUntyped (806-828)"),
